@@ -20,13 +20,17 @@ func C14(seed uint64, run int) *spec.Spec {
 	if r.Chance(0.08) {
 		n = 0
 	}
-	kinds := []string{"add_future", "add_before", "add_between", "replace_flag", "replace_name", "replace_target", "remove", "remove_absent", "add_block"}
-	w := []int{22, 18, 12, 12, 8, 8, 12, 8, 7}
+	kinds := []string{"add_future", "add_before", "add_between", "replace_flag", "replace_name", "replace_target", "remove", "remove_absent", "add_block", "same_day_again"}
+	w := []int{22, 18, 12, 12, 8, 8, 12, 8, 7, 6}
 	bad := []string{"", "2", "20", "2020-1", "202", "x", "2020010", "~", "2020-13-45", "99999999", "20200101000000000000"}
 	for i := 0; i < n; i++ {
 		if r.Chance(0.15) {
 			k := r.PickS(bad)
 			s.History = append(s.History, spec.HStep{BadKey: &k, Why: "bad_key"})
+			continue
+		}
+		if r.Chance(0.05) {
+			s.History = append(s.History, spec.HStep{Forgot: r.U64()>>1 | 1, Why: "forgotten_label_then_repair"})
 			continue
 		}
 		st := spec.HStep{}
